@@ -3,9 +3,11 @@
    disassembled stream; the subset / equality of executed offsets against the EVM control-flow graph is
    evaluated by the reference EVM of Evm.v on the implementation's visit counters (tools/p_c08.py);
    the inclusion THEOREM along each path (`C08_executed_offsets_reachable`) is a corollary of C07's simulation
-   (proofs/VmSim.v) for threads whose steps satisfy C07's guards. *)
-From SLX Require Import Base gen.Constants gen.OpcodeTable SymVal Disasm VM Word256 EvmSpec Fold Evm SimTrace SimGuards
-                        proofs.DisasmProofs proofs.VmBounds proofs.VmControl proofs.VmSim.
+   (proofs/VmSim.v) for threads whose steps satisfy C07's guards; the CONVERSE inclusion
+   (`C08_reachable_offsets_executed`: no reachable code is skipped) is proved in proofs/VmExplore.v for runs all of
+   whose iterations satisfy those guards and lose no fork (SimGuards.guards_all). *)
+From SLX Require Import Base gen.Constants gen.OpcodeTable SymVal Disasm VM Word256 EvmSpec Fold Evm Sim SimTrace SimGuards VmCases SimCases
+                        proofs.DisasmProofs proofs.VmBounds proofs.VmControl proofs.VmSim proofs.VmExplore.
 Open Scope N_scope.
 
 (* a jump (JUMP or the forked half of JUMPI) is only ever taken to a target t such that the value on the
@@ -74,6 +76,83 @@ Theorem C08_executed_offsets_reachable : forall bytes code (cfg : config),
               In o (epcs bytes fuel p e_init).
 Proof. exact executed_offsets_reachable. Qed.
 
+(* ---- the converse: no reachable code is skipped.
+   `ereach bytes e_init e`: the reference EVM reaches state e when both outcomes of every JUMPI are possible.
+   Hypotheses (all decidable on the model run): the run of the model VM ends (RDone) with an empty queue, and EVERY
+   iteration satisfied `step_guard2` = the guards of C07's simulation (instruction in the fragment, no culling, no
+   stack fault, aligned constant memory offsets, literal storage keys, validated JUMP target, the thread not
+   retired by the iteration or gas limit) plus `fork_guard`: at a JUMPI whose target validates, neither the
+   iteration limit at the target nor the fork limit suppresses the fork; at a JUMPI whose target does not validate,
+   the reference EVM cannot take the jump either.  Alternatively the iteration is a JUMP that neither machine can take
+   (`dead_jump_guard`: the target does not validate and denotes no valid destination): the path ends on both sides.
+   Conclusion: the offset of every reachable state that executes an instruction has a positive visit counter in
+   some retired state and is not push data -- or it is the JUMPDEST a reachable JUMP lands on (which the symbolic
+   machine steps over by design of Jump::execute). ---- *)
+Theorem C08_reachable_state_executed : forall bytes code,
+  bytes_ok bytes -> N.of_nat (length bytes) <= two32 -> try_from bytes = Ok code ->
+  forall (cfg : config) n mf, run constant_fold n (init_vm code cfg) = RDone mf -> v_queue mf = [] ->
+  guards_all bytes code cfg n (init_vm code cfg) = true ->
+  forall e, ereach bytes e_init e -> byte_at bytes (e_pc e) <> None ->
+  ((exists sv, In sv (v_stored mf) /\ 0 < count_of (e_pc e) (snd sv)) /\ imm_false bytes (e_pc e)) \/ landing bytes (e_pc e).
+Proof. exact reachable_state_executed. Qed.
+
+(* the same in the terms of the check: every offset of the reference exploration (SimCases.explore, both JUMPI
+   outcomes) is among the visited instruction offsets of the retired states or among SimCases.landings -- exactly the
+   predicate whose failure is code 51 of SimCases.c08_code (`visited_offsets` is the expression c08_code evaluates) *)
+Theorem C08_reachable_offsets_executed : forall bytes code (cfg : config),
+  bytes_ok bytes -> N.of_nat (length bytes) <= two32 -> try_from bytes = Ok code ->
+  forall n mf, run constant_fold n (init_vm code cfg) = RDone mf -> v_queue mf = [] ->
+  guards_all bytes code cfg n (init_vm code cfg) = true ->
+  forall fuel reach, explore bytes fuel [e_init] [] = Some reach ->
+  forallb (fun o => mem_N o (visited_offsets bytes (v_stored mf)) || mem_N o (landings bytes fuel [e_init] [])) reach = true.
+Proof. exact reachable_offsets_executed. Qed.
+
+Theorem C08_code_51_impossible : forall bytes code (cfg : config),
+  bytes_ok bytes -> N.of_nat (length bytes) <= two32 -> try_from bytes = Ok code ->
+  forall n mf, run constant_fold n (init_vm code cfg) = RDone mf -> v_queue mf = [] ->
+  guards_all bytes code cfg n (init_vm code cfg) = true ->
+  forall ok errs jt retired queued polls,
+  c08_code (mk_vcase bytes cfg (XRun ok errs (v_stored mf) jt retired queued polls)) <> 51.
+Proof. exact c08_code_not_51. Qed.
+
+(* the worklist algorithms of the check are sound / complete for the graph *)
+Theorem C08_explore_sound : forall bytes f work seen reach, explore bytes f work seen = Some reach ->
+  forall o, In o reach ->
+  In o seen \/ exists s e, In s work /\ ereach bytes s e /\ byte_at bytes (e_pc e) <> None /\ e_pc e = o.
+Proof. exact explore_sound. Qed.
+
+(* Outside the hypotheses the converse is FALSE, on a jump target that is a constant of the path but does not
+   constant-fold: sstore(0, L); if (1) goto sload(0); stop; L: jumpdest; push 1; stop
+     60 0c 60 00 55  60 01 60 00 54 57  00  5b 60 01 00
+   the reference EVM takes the jump to offset 12; the symbolic machine sees the target SLoad{0, 12}, cannot fold it,
+   does not fork, and never executes offsets 12, 13, 15 (fork_guard is false at the JUMPI). *)
+Definition c08_cfg : config := mk_config 30000000 10 50 100000 394 false 100 None.
+Theorem C08_converse_refuted : exists bytes code mf reach,
+  try_from bytes = Ok code /\ run constant_fold 300 (init_vm code c08_cfg) = RDone mf /\ v_queue mf = [] /\
+  explore bytes 300 [e_init] [] = Some reach /\
+  forallb (fun o => mem_N o (visited_offsets bytes (v_stored mf)) || mem_N o (landings bytes 300 [e_init] [])) reach = false /\
+  guards_all bytes code c08_cfg 300 (init_vm code c08_cfg) = false.
+Proof.
+  exists [96;12;96;0;85; 96;1;96;0;84;87; 0; 91;96;1;0]. do 3 eexists.
+  split; [vm_compute; reflexivity|]. split; [vm_compute; reflexivity|]. split; [vm_compute; reflexivity|].
+  split; [vm_compute; reflexivity|]. split; vm_compute; reflexivity.
+Qed.
+
+(* Non-vacuity of the converse: a program with a JUMPI both of whose outcomes are explored meets all hypotheses
+     sstore(3,7); if (1) goto L; sstore(3,9); stop;  L: mstore(0, sload(3)); x = mload(0); pop(x + x); stop *)
+Example C08_converse_hyps_met :
+  let bytes := [96;7;96;3;85; 96;1;96;16;87; 96;9;96;3;85;0; 91;96;3;84;96;0;82;96;0;81;128;1;80;0] in
+  exists code mf reach,
+    try_from bytes = Ok code /\ run constant_fold 300 (init_vm code c08_cfg) = RDone mf /\ v_queue mf = [] /\
+    v_paths mf = [[false]; [true]] /\
+    guards_all bytes code c08_cfg 300 (init_vm code c08_cfg) = true /\
+    explore bytes 300 [e_init] [] = Some reach /\ length reach = 21%nat.
+Proof.
+  cbv zeta. do 3 eexists. split; [vm_compute; reflexivity|]. split; [vm_compute; reflexivity|].
+  split; [vm_compute; reflexivity|]. split; [vm_compute; reflexivity|]. split; [vm_compute; reflexivity|].
+  split; vm_compute; reflexivity.
+Qed.
+
 Example C08_hyps_met :
   validate_jump (fun v => v) [IPush 1 [3]; INop; IOp control_Jump; IOp control_JumpDest] (Known 3) = inl 3
   /\ validate_jump (fun v => v) [IPush 1 [3]; INop; IOp control_Jump; IOp control_JumpDest] (Known (two32 + 3)) = inr EInvalidOffsetForJump
@@ -88,3 +167,8 @@ Print Assumptions C08_reference_valid_dest.
 Print Assumptions C08_both_branches.
 Print Assumptions C08_halting_ends_path.
 Print Assumptions C08_executed_offsets_reachable.
+Print Assumptions C08_reachable_state_executed.
+Print Assumptions C08_reachable_offsets_executed.
+Print Assumptions C08_code_51_impossible.
+Print Assumptions C08_explore_sound.
+Print Assumptions C08_converse_refuted.
